@@ -4,10 +4,10 @@
     with a), [Fail] (an [Err] reached [Env::status]: exit status 1 with an `error:` line) or
     [Abort] (a panic: exit status 101 / abort). **Every partial operation of the Rust code is
     an explicit Abort-returning primitive** ([unwrap], [index], [slice_from], [slice_to],
-    [add_u64], [add_usize], [sub_usize], [rem_u64], [stack_guard]); nothing else can
-    produce [Abort]. The model mirrors the tree *after* the repairs 0001-0007 and the argv
-    repair (env::args_os + StrictUtf8); DESIGN.md section 6 lists what the unrepaired
-    code did at the same places.
+    [add_u64], [add_usize], [sub_usize], [rem_u64], [truncate], [stack_guard]); nothing else can
+    produce [Abort]. The model mirrors the tree *after* the repairs 0001-0007, the argv
+    repair (env::args_os + StrictUtf8) and the file-tree repair (src/table.rs without recursion);
+    DESIGN.md section 6 lists what the unrepaired code did at the same places.
 
     External code is a Section variable: [url_ok] (url crate accepts the text), [node_ok]
     (the node deserialiser - url::Host::parse - accepts the encoded node), [stack_budget]
@@ -502,33 +502,175 @@ Fixpoint tiers_rows (i : N) (tiers : list (list bytes)) : result unit :=
   | _ :: r => bind (add_usize i 1) (fun _ => tiers_rows (i + 1) r)
   end.
 
-(** [Tree::insert]: [if file.is_empty() { return }  let head = &file[0]; .. insert(&file[1..])] *)
-Fixpoint tree_insert (fuel : nat) (file : list bytes) : result unit :=
+(* the file tree of the terminal layout *)
+(** src/table.rs after the repair "fix: build, render and drop the file tree without recursion":
+    [Tree::insert] is a loop over the path components, [Tree::lines] a loop over an explicit
+    stack of child iterators, [Drop for Tree] a loop over an explicit stack of subtrees. None of
+    them uses call stack per path component, so the model has no stack budget here; what is left
+    to guard are the partial operations of the loops. *)
+Inductive tree := Node (name : bytes) (children : list tree).
+Definition t_name (t : tree) : bytes := match t with Node n _ => n end.
+Definition t_children (t : tree) : list tree := match t with Node _ cs => cs end.
+
+(** [children.iter().position(|child| child.name == name)] *)
+Fixpoint position (name : bytes) (cs : list tree) : option N :=
+  match cs with
+  | [] => None
+  | c :: r => if bytes_eqb (t_name c) name then Some 0 else option_map N.succ (position name r)
+  end.
+
+Fixpoint set_nth {A} (n : nat) (x : A) (l : list A) : list A :=
+  match l, n with
+  | [], _ => []
+  | _ :: r, O => x :: r
+  | y :: r, S m => y :: set_nth m x r
+  end.
+
+(** [Tree::insert]: [for name in file { let index = match position { Some(index) => index, None =>
+    { children.push(new(name)); children.len() - 1 } }; tree = &mut tree.children[index]; }].
+    The walk down through [&mut] is the functional update on the way back. *)
+Fixpoint tree_insert (file : list bytes) (t : tree) : result tree :=
+  match file with
+  | [] => Val t
+  | name :: rest =>
+      let cs := t_children t in
+      bind (match position name cs with
+            | Some i => Val (cs, i)
+            | None => let cs' := cs ++ [Node name []] in
+                      bind (sub_usize (N.of_nat (length cs')) 1) (fun i => Val (cs', i))
+            end) (fun ci =>
+      bind (index (fst ci) (snd ci)) (fun child =>
+      bind (tree_insert rest child) (fun child' =>
+      Val (Node (t_name t) (set_nth (N.to_nat (snd ci)) child' (fst ci))))))
+  end.
+
+Fixpoint tree_insert_all (files : list (list bytes)) (t : tree) : result tree :=
+  match files with
+  | [] => Val t
+  | f :: r => bind (tree_insert f t) (tree_insert_all r)
+  end.
+
+(** the four texts drawn in front of a name: corner and tee connect a node to its parent, blank and
+    bar continue the line of an ancestor (UTF-8 of U+2514 U+2500, U+251C U+2500, two spaces,
+    U+2502 space; Proofs/CrashProofs.v [segments_spelled] checks the spelling) *)
+Definition seg_corner : bytes := [226; 148; 148; 226; 148; 128].
+Definition seg_tee : bytes := [226; 148; 156; 226; 148; 128].
+Definition seg_blank : bytes := [32; 32].
+Definition seg_bar : bytes := [226; 148; 130; 32].
+
+(** [str::is_char_boundary]: [index == 0], or [index == len] past the end, or [(b as i8) >= -0x40] *)
+Definition is_char_boundary (s : bytes) (n : nat) : bool :=
+  match n with
+  | O => true
+  | _ => match nth_error s n with
+         | None => Nat.eqb n (length s)
+         | Some b => negb (cont b)
+         end
+  end.
+
+(** [String::truncate]: [if new_len <= self.len() { assert!(self.is_char_boundary(new_len)); .. }] *)
+Definition truncate (s : bytes) (n : nat) : result bytes :=
+  if Nat.leb n (length s)
+  then (if is_char_boundary s n then Val (firstn n s) else Abort)
+  else Val s.
+
+Definition is_nil {A} (l : list A) : bool := match l with [] => true | _ => false end.
+
+(** a frame of the explicit stack of [Tree::lines]: the children not yet drawn, and the length of
+    the prefix in front of them *)
+Definition frame := (list tree * nat)%type.
+
+(** [Tree::lines], the [while let Some((children, indent)) = stack.last_mut()] loop; one unit
+    of fuel per round; [out] collects the lines handed to the callback, newest first *)
+Fixpoint lines_loop (fuel : nat) (prefix : bytes) (stack : list frame) (out : list bytes) : result (list bytes) :=
   match fuel with
-  | O => Fail   (* never reached with the fuel passed below, see tree_insert_fuel *)
+  | O => Fail   (* never reached with the fuel passed by tree_lines, see lines_fuel_suffices *)
   | S f =>
-      match file with
-      | [] => Val tt
-      | _ => bind (index file 0) (fun _ => bind (slice_from file 1) (fun rest => tree_insert f rest))
+      match stack with
+      | [] => Val (rev out)
+      | (children, indent) :: below =>
+          match children with
+          | [] => lines_loop f prefix below out
+          | child :: more =>
+              let last := is_nil more in
+              bind (truncate prefix indent) (fun p1 =>
+              let p2 := p1 ++ (if last then seg_corner else seg_tee) in
+              bind (truncate p2 indent) (fun p3 =>
+              let p4 := p3 ++ (if last then seg_blank else seg_bar) in
+              lines_loop f p4 ((t_children child, length p4) :: (more, indent) :: below)
+                         ((p2 ++ t_name child) :: out)))
+          end
       end
   end.
 
-(** [Tree::lines_inner]: [for (i, child) in children.enumerate() { if i == children.len() - 1 ..] *)
-Fixpoint lines_children (total : N) (remaining : nat) : result unit :=
-  match remaining with
-  | O => Val tt
-  | S r => bind (sub_usize total 1) (fun _ => lines_children total r)
-  end.
-Definition lines_node (nchildren : nat) : result unit := lines_children (N.of_nat nchildren) nchildren.
+Fixpoint tree_size (t : tree) : nat :=
+  match t with Node _ cs => S (fold_right (fun c a => (tree_size c + a)%nat) O cs) end.
 
-(** [write_human_readable], Directory arm, per line: [if !last.is_empty() { for .. in &last[..last.len() - 1] ..; last[last.len() - 1] }] *)
-Definition line_prefix (last : list bool) : result unit :=
-  match last with
-  | [] => Val tt
-  | _ => bind (sub_usize (N.of_nat (length last)) 1) (fun n =>
-         bind (slice_to last n) (fun _ =>
-         bind (index last n) (fun _ => Val tt)))
+(** every node but the root is drawn in one round, every frame is popped in one round, and one
+    round finds the stack empty *)
+Definition tree_lines (t : tree) : result (list bytes) :=
+  lines_loop (2 * tree_size t) [] [(t_children t, O)] [t_name t].
+
+(** [Drop for Tree]: [let mut stack = take(&mut self.children); while let Some(mut tree) = stack.pop()
+    { stack.append(&mut tree.children); }] *)
+Fixpoint drop_loop (fuel : nat) (stack : list tree) : result unit :=
+  match fuel with
+  | O => Fail   (* never reached with the fuel passed by tree_drop, see drop_fuel_suffices *)
+  | S f => match stack with [] => Val tt | t :: rest => drop_loop f (t_children t ++ rest) end
   end.
+Definition tree_drop (t : tree) : result unit := drop_loop (tree_size t) (t_children t).
+
+(** [Table::directory]: [files.sort()], the derived order of [FilePath]: component by component,
+    each compared as bytes; the sort is stable *)
+Fixpoint path_leb (a b : list bytes) : bool :=
+  match a, b with
+  | [], _ => true
+  | _ :: _, [] => false
+  | x :: a', y :: b' => if bytes_ltb x y then true else if bytes_ltb y x then false else path_leb a' b'
+  end.
+Fixpoint sort_insert (p : list bytes) (l : list (list bytes)) : list (list bytes) :=
+  match l with
+  | [] => [p]
+  | q :: r => if path_leb p q then p :: l else q :: sort_insert p r
+  end.
+Definition sort_paths (l : list (list bytes)) : list (list bytes) := fold_right sort_insert [] l.
+
+(** the Directory arm of [write_human_readable]: build the tree, hand every line to the writer, drop the tree *)
+Definition directory_rows (root : bytes) (files : list (list bytes)) : result (list bytes) :=
+  bind (tree_insert_all (sort_paths files) (Node root [])) (fun t =>
+  bind (tree_lines t) (fun ls =>
+  bind (tree_drop t) (fun _ => Val ls))).
+
+(** what the code before the repair computed, by recursion on the tree (unlimited stack): the
+    specification the loops are proved equal to *)
+Fixpoint insert_spec_children (insert_rest : tree -> tree) (name : bytes) (cs : list tree) : list tree :=
+  match cs with
+  | [] => [insert_rest (Node name [])]
+  | c :: r => if bytes_eqb (t_name c) name then insert_rest c :: r else c :: insert_spec_children insert_rest name r
+  end.
+Fixpoint insert_spec (file : list bytes) (t : tree) : tree :=
+  match file with
+  | [] => t
+  | name :: rest => Node (t_name t) (insert_spec_children (insert_spec rest) name (t_children t))
+  end.
+
+(** [lines_inner] with [last] kept as the prefix text of the ancestors *)
+Section SpecChildren.
+Variable line_of : bool -> tree -> list bytes.
+Fixpoint spec_children (cs : list tree) : list bytes :=
+  match cs with
+  | [] => []
+  | c :: r => line_of (is_nil r) c ++ spec_children r
+  end.
+End SpecChildren.
+Fixpoint lines_spec_node (anc : bytes) (last : bool) (t : tree) {struct t} : list bytes :=
+  match t with
+  | Node name cs =>
+      (anc ++ (if last then seg_corner else seg_tee) ++ name) ::
+      spec_children (fun l c => lines_spec_node (anc ++ (if last then seg_blank else seg_bar)) l c) cs
+  end.
+Definition lines_spec (t : tree) : list bytes :=
+  t_name t :: spec_children (fun l c => lines_spec_node [] l c) (t_children t).
 
 (** [name_width - UnicodeWidthStr::width(name)] where [name_width] is the maximum over the rows *)
 Definition name_width (ws : list N) : N := fold_right N.max 0 ws.
@@ -536,20 +678,9 @@ Definition pad_rows (ws : list N) : result unit :=
   for_each (fun w => bind (sub_usize (name_width ws) w) (fun _ => Val tt)) ws.
 
 Variable in_chrono_range : N -> bool.
-(** frames of [Tree::insert] / [Tree::lines_inner] / [drop] the main-thread stack holds: these
-    recurse once per path component and nothing limits the number of components *)
-Variable tree_budget : N.
 
-Definition shallow_tree (m : metainfo) : bool :=
-  match i_mode (m_info m) with
-  | Single _ _ => true
-  | Multiple fs => forallb (fun f => N.of_nat (length (f_path f)) <=? tree_budget) fs
-  end.
-
-(** widths of the row labels, numbers of children of the tree nodes, line prefixes of the
-    file tree: whatever they are *)
-Definition summary (term : bool) (m : metainfo) (row_widths : list N) (child_counts : list nat)
-    (prefixes : list (list bool)) : result unit :=
+(** widths of the row labels: whatever they are *)
+Definition summary (term : bool) (m : metainfo) (row_widths : list N) : result unit :=
   bind (match m_creation_date m with Some d => date_row in_chrono_range d | None => Val tt end) (fun _ =>
   bind (content_size (i_mode (m_info m))) (fun size =>
   bind (match m_announce_list m with Some t => tiers_rows 0 t | None => Val tt end) (fun _ =>
@@ -559,11 +690,7 @@ Definition summary (term : bool) (m : metainfo) (row_widths : list N) (child_cou
     bind (bytes_display (as_u64 (i_piece_length (m_info m)))) (fun _ =>
     match i_mode (m_info m) with
     | Single _ _ => Val tt
-    | Multiple fs =>
-        bind (for_each (fun f => bind (stack_guard tree_budget (N.of_nat (length (f_path f)))) (fun _ =>
-                                 tree_insert (S (length (f_path f))) (f_path f))) fs) (fun _ =>
-        bind (for_each lines_node child_counts) (fun _ =>
-        for_each line_prefix prefixes))
+    | Multiple fs => bind (directory_rows (i_name (m_info m)) (map f_path fs)) (fun _ => Val tt)
     end)))
   else Val tt))).
 
@@ -575,11 +702,21 @@ Definition load (data : bytes) : result (value * metainfo) :=
   bind (parse data) (fun v => bind (de_metainfo v) (fun m => Val (v, m))).
 
 (** torrent show (text, --json; [term] = stdout is a terminal or --terminal) *)
-Definition show_model (term : bool) (row_widths : list N) (child_counts : list nat)
-    (prefixes : list (list bool)) (data : bytes) : result unit :=
+Definition show_model (term : bool) (row_widths : list N) (data : bytes) : result unit :=
   bind (load data) (fun vm =>
   bind (infohash_of (fst vm)) (fun _ =>
-  summary term (snd vm) row_widths child_counts prefixes)).
+  summary term (snd vm) row_widths)).
+
+(** the lines of the file tree `torrent show` draws in terminal layout for a multi-file torrent *)
+Definition tree_rows (data : bytes) : option (list bytes) :=
+  match load data with
+  | Val (_, m) =>
+      match i_mode (m_info m) with
+      | Multiple fs => match directory_rows (i_name (m_info m)) (map f_path fs) with Val ls => Some ls | _ => None end
+      | Single _ _ => None
+      end
+  | _ => None
+  end.
 
 Definition trackers (m : metainfo) : list bytes :=
   (match m_announce m with Some a => [a] | None => [] end) ++
@@ -653,10 +790,14 @@ Definition crash_class_of (cmd : N) (okurls oknodes : list bytes) (data : bytes)
   let url_ok := fun s => accepted (k_magnet :: okurls) s in
   let node_ok := accepted oknodes in
   let budget := max_depth in
-  if cmd =? 0 then finish (show_model url_ok node_ok budget (fun _ => true) 20000 true [] [] [] data)
+  if cmd =? 0 then finish (show_model url_ok node_ok budget (fun _ => true) true [] data)
   else if cmd =? 1 then finish (link_model url_ok node_ok budget data)
   else if cmd =? 2 then finish (verify_model url_ok node_ok (fun _ => true) data)
   else if cmd =? 3 then finish (dump_model budget data)
   else finish (stats_model budget [data]).
 
 Definition crash_utf8_ok (bs : bytes) : bool := utf8_ok bs.
+
+(** the file tree of a torrent as the model draws it, the external answers given as accept-lists *)
+Definition crash_tree_rows (okurls oknodes : list bytes) (data : bytes) : option (list bytes) :=
+  tree_rows (fun s => accepted (k_magnet :: okurls) s) (accepted oknodes) data.
